@@ -205,6 +205,11 @@ def reduced_patterns(big):
     return out
 
 
+def tiny_patterns():
+    """Few patterns that share hour texts and minute texts: for lists of three and four alternatives."""
+    return [h + ':' + m for h in ('8', '9', '1*') for m in ('00', '30', '*5')]
+
+
 def _part_b(rank, n, pats, arity):
     w = world.World(world.POP_ONE)
     refs = {p: ref_set(p) for p in pats}
@@ -306,6 +311,7 @@ def run(tier, seed):
     pats = reduced_patterns(False)
     b2 = par.run(_part_b, (reduced_patterns(True) if big_pairs else pats, 2))
     b3 = par.run(_part_b, (pats, 3)) if tier == 'thorough' else []
+    b3 += par.run(_part_b, (tiny_patterns(), 3)) + par.run(_part_b, (tiny_patterns(), 4))
     c = par.run(_part_c, (3 if tier == 'thorough' else 2,))
 
     viol = []
@@ -329,7 +335,8 @@ def run(tier, seed):
         'distinct_nontrivial': max(r['distinct_sets'] for r in a) if a else 0,
         'rule': 'A: every string of length<=%d over "%s" compiled as `time at <s> wait` and run; '
                 'states = (pattern,minute) table cells compared with the reference predicate. '
-                'B: every ordered %s over the reduced pattern set joined by `or`. '
+                'B: every ordered %s over the reduced pattern set joined by `or`, and every ordered triple and '
+                'quadruple over nine patterns that share hour and minute texts. '
                 'C: every history of <=3 (quick: 2) uses over %d use kinds. distinct_nontrivial = most '
                 'distinct match-sets seen by one worker (lower bound).' % (
                     maxlen, ALPHA, 'pair and triple' if b3 else 'pair', len(uses())),
